@@ -15,6 +15,7 @@ def run(rep, prog, tier):
     rep.rule('R10.layout', 'A: S x S, B: S x U, C: (N+V) x S, D: (N+V) x U with S = order of c_values then l_values, U = current sources then voltage sources that are not inductors; the published source list has space U')
     rep.rule('R10.formula', 'non-commutative normal forms of A, B, C, D equal the MNA derivation: S = (DQ^T A~^-1 DQ)^-1, A = L^-1 S, B = -L^-1 S DQ^T A~^-1 QS, C = A~^-1 DQ S, D = (A~^-1 - A~^-1 DQ S DQ^T A~^-1) QS (A~ symmetric)')
     rep.rule('R10.wiring', 'Delta from c_values, QS/QL from l_values, DQ = [Delta^T | QL], A~ = real DC coefficient matrix of the same network, Lambda from (c_values, l_values); model object receives the same dictionaries and mappers')
+    rep.rule('R10.wrapper', 'the circuit-level wrapper stacks C and D rows from the same request lists in the same order with matching accessor kinds')
     rep.rule('R10.rows', 'c_row_X / d_row_X are images of each other under C<->D, A<->B (confirmed exceptions: current-source feedthrough, filtered map)')
     rep.assume('A1: no current source is an inductor')
     interps = SR.analyse(prog)
@@ -24,6 +25,7 @@ def run(rep, prog, tier):
     layout(rep, interps)
     formulas(rep, prog)
     rows(rep, prog)
+    wrapper(rep, prog)
 
 
 def layout(rep, interps):
@@ -122,8 +124,51 @@ def formulas(rep, prog):
     rep.ob('R10.wiring', 'A_tilde:real', 'nodal_analysis_coefficient_matrix(network).real' in src.replace(' ', '') or '.real' in src, 'DC coefficient matrix taken as real', site)
 
 
+def wrapper(rep, prog):
+    """Circuit.state_space_model: C and D are stacked from the same request lists, in the same order, with matching accessor kinds"""
+    m = prog.mod(SR.CSS); fn = m.defs.get('state_space_model')
+    if not isinstance(fn, ast.FunctionDef):
+        rep.ob('R10.wrapper', 'state_space_model', None, 'wrapper not found'); return
+    seq = {'c': [], 'd': []}
+    for st in fn.body:
+        if isinstance(st, ast.For):
+            for call in ast.walk(st):
+                if isinstance(call, ast.Call) and isinstance(call.func, ast.Attribute) and call.func.attr[:6] in ('c_row_', 'd_row_'):
+                    arg = ast.unparse(call.args[0]) if call.args else None
+                    ok_arg = isinstance(st.target, ast.Name) and arg == st.target.id
+                    tgt = None
+                    for a in ast.walk(st):
+                        if isinstance(a, ast.Assign) and isinstance(a.targets[0], ast.Name): tgt = a.targets[0].id
+                    seq[call.func.attr[0]].append((ast.unparse(st.iter), call.func.attr[6:], ok_arg, tgt))
+    site = prog.site(m, fn)
+    okc = [(a, b) for a, b, ok, t in seq['c']] == [(a, b) for a, b, ok, t in seq['d']] and len(seq['c']) >= 3
+    rep.ob('R10.wrapper', 'rows-in-step', okc, f"C rows: {[(a, b) for a, b, _, _ in seq['c']]}  D rows: {[(a, b) for a, b, _, _ in seq['d']]}", site)
+    rep.ob('R10.wrapper', 'row-argument', all(ok for _, _, ok, _ in seq['c'] + seq['d']) and bool(seq['c']), 'each row is requested for the identifier being iterated', site)
+    kinds = {('potential_nodes', 'for_potential'), ('voltage_ids', 'voltage'), ('current_ids', 'current')}
+    rep.ob('R10.wrapper', 'list-kind', {(a, b) for a, b, _, _ in seq['c']} == kinds, 'potential_nodes -> potential rows, voltage_ids -> voltage rows, current_ids -> current rows', site)
+    ret = [r for r in ast.walk(fn) if isinstance(r, ast.Return)]
+    kw = {k.arg: ast.unparse(k.value) for k in ret[0].value.keywords} if ret and isinstance(ret[0].value, ast.Call) else {}
+    ctargets = {t for _, _, _, t in seq['c']}; dtargets = {t for _, _, _, t in seq['d']}
+    okr = kw.get('A', '').endswith('.A') and kw.get('B', '').endswith('.B') and {kw.get('C')} == ctargets and {kw.get('D')} == dtargets
+    rep.ob('R10.wrapper', 'result', okr, f'StateSpaceModel({kw})', site)
+
+
 MIRROR = {'C': 'D', 'A': 'B', 'c_pos': 'd_pos', 'c_neg': 'd_neg', 'c_row_for_potential': 'd_row_for_potential', 'c_row': 'd_row'}
 MIRROR_PAIRS = [('c_row_for_potential', 'd_row_for_potential'), ('c_row_voltage', 'd_row_voltage')]
+
+
+def _alpha(fn):
+    """canonical dump of a function body with local variable names replaced by their order of first binding"""
+    import copy
+    fn = copy.deepcopy(fn)
+    params = {a.arg for a in fn.args.args}
+    order = {}
+    for n in ast.walk(fn):
+        if isinstance(n, ast.Name) and isinstance(n.ctx, ast.Store) and n.id not in params and n.id not in order:
+            order[n.id] = f'v{len(order)}'
+    for n in ast.walk(fn):
+        if isinstance(n, ast.Name) and n.id in order: n.id = order[n.id]
+    return fn
 
 
 class _Ren(ast.NodeTransformer):
@@ -143,17 +188,30 @@ def rows(rep, prog):
     for c, d in MIRROR_PAIRS:
         if c not in meth or d not in meth:
             rep.ob('R10.rows', f'{c}/{d}', None, 'accessor missing', prog.site(m, cls)); continue
-        cm = _Ren().visit(copy.deepcopy(meth[c]))
+        cm = _alpha(_Ren().visit(copy.deepcopy(meth[c])))
         a = ast.dump(ast.Module(body=cm.body, type_ignores=[]), annotate_fields=False)
-        b = ast.dump(ast.Module(body=meth[d].body, type_ignores=[]), annotate_fields=False)
+        b = ast.dump(ast.Module(body=_alpha(meth[d]).body, type_ignores=[]), annotate_fields=False)
         rep.ob('R10.rows', f'{c}/{d}', a == b, 'mirror images under C<->D' if a == b else 'the two accessors differ beyond C<->D renaming', prog.site(m, meth[d]))
     # current rows: compare branch by branch
     if 'c_row_current' in meth and 'd_row_current' in meth:
         cc, dc = meth['c_row_current'], meth['d_row_current']
         def rets(fn):
             return sorted((r for r in ast.walk(fn) if isinstance(r, ast.Return) and r.value is not None), key=lambda r: (r.lineno, r.col_offset))
-        rc = [ast.unparse(_Ren().visit(copy.deepcopy(r.value))) for r in rets(cc)]
-        rd = [ast.unparse(r.value) for r in rets(dc)]
+        def canon(expr, fn):
+            # locals numbered by first occurrence inside the returned expression itself
+            e2 = copy.deepcopy(expr)
+            params = {a.arg for a in fn.args.args}
+            order = {}
+            for n_ in ast.walk(e2):
+                if isinstance(n_, ast.Name) and n_.id not in params and n_.id not in ('np', 'self'):
+                    order.setdefault(n_.id, f'v{len(order)}'); n_.id = order[n_.id]
+            return ast.unparse(e2)
+        rc = [canon(_Ren().visit(copy.deepcopy(r.value)), cc) for r in rets(cc)]
+        rd = [canon(r.value, dc) for r in rets(dc)]
+        # the state rows may only read A / C, the feedthrough rows only B / D
+        c_uses = {n.attr for n in ast.walk(cc) if isinstance(n, ast.Attribute) and isinstance(n.value, ast.Name) and n.value.id == 'self' and n.attr in 'ABCD'}
+        d_uses = {n.attr for n in ast.walk(dc) if isinstance(n, ast.Attribute) and isinstance(n.value, ast.Name) and n.value.id == 'self' and n.attr in 'ABCD'}
+        rep.ob('R10.rows', 'current:matrices', c_uses <= {'A', 'C'} and d_uses <= {'B', 'D'}, f'c_row_current reads {sorted(c_uses)}, d_row_current reads {sorted(d_uses)}', prog.site(m, dc))
         same_cap = len(rc) >= 1 and len(rd) >= 1 and rc[0] == rd[0]
         same_pas = len(rc) >= 1 and rc[-1] == rd[-1]
         rep.ob('R10.rows', 'current:capacitor', same_cap, f'{rc[0] if rc else None} ~ {rd[0] if rd else None}', prog.site(m, dc))
